@@ -394,17 +394,28 @@ def run_harnesses(modname, tier, only=None, total_budget_s=None, procs=None, see
     # deadline are not run (reported as not exhausted).
     import crosshair.core_and_libs  # noqa: pre-import so that forked workers start fast
     import dendropy  # noqa
-    deadline = time.time() + total_budget_s
-    tasks = [(h, i) for h in hs for i in range(len(h.shards))]
-    args = []
-    for h, i in tasks:
-        cap = h.shard_budget or total_budget_s
-        args.append((modname, tier, h.id, i, cap, deadline))
+    # Harnesses run one after the other, each inside its own slice of the budget (proportional
+    # to Harness.cost); time a harness does not use rolls over to the next ones.  Within a
+    # harness the shards are processed in the order listed (smallest bounds first); a shard runs
+    # until its path tree is exhausted, its cap is reached or the slice ends; shards that would
+    # start after the end of the slice are not run (reported as not exhausted).
+    t_begin = time.time()
+    t_end = t_begin + total_budget_s
     ctx = multiprocessing.get_context("fork")
     results = []
-    with ctx.Pool(processes=min(procs, max(1, len(args))), maxtasksperchild=1) as pool:
-        for r in pool.imap_unordered(_shard_task, args, chunksize=1):
-            results.append(r)
+    remaining_cost = sum(h.cost for h in hs) or 1.0
+    for h in hs:
+        now = time.time()
+        slice_s = max(5.0, (t_end - now) * h.cost / remaining_cost)
+        remaining_cost -= h.cost
+        deadline = now + slice_s
+        args = []
+        for i in range(len(h.shards)):
+            cap = h.shard_budget or slice_s
+            args.append((modname, tier, h.id, i, cap, deadline))
+        with ctx.Pool(processes=min(procs, max(1, len(args))), maxtasksperchild=1) as pool:
+            for r in pool.imap_unordered(_shard_task, args, chunksize=1):
+                results.append(r)
     by_h = {}
     for r in results:
         by_h.setdefault(r["harness"], []).append(r)
